@@ -5,10 +5,6 @@ From RxModel Require Export Ops2 RustSem BodyAbs.
 Open Scope string_scope.
 Open Scope list_scope.
 
-(* which of the operators have their bodies tied (the others are tied by the case runs only) *)
-Definition tied2 (o : op2) : bool :=
-  match o with OMerge | OZip | OCombineLatest _ => true | _ => false end.
-
 (* file and the type of the observer handed to this input *)
 Definition src2 (o : op2) (sd : side) : string * string :=
   match o, sd with
@@ -17,7 +13,16 @@ Definition src2 (o : op2) (sd : side) : string * string :=
   | OZip, B => ("ops/zip.rs", "BObserver")
   | OCombineLatest _, A => ("ops/combine_latest.rs", "AObserver")
   | OCombineLatest _, B => ("ops/combine_latest.rs", "BObserver")
-  | _, _ => ("-", "-")
+  | OWithLatestFrom, A => ("ops/with_latest_from.rs", "AObserver")
+  | OWithLatestFrom, B => ("ops/with_latest_from.rs", "BObserver")
+  | OTakeUntil, A => ("ops/take_until.rs", "Option")          (* the main input gets the shared cell itself (observer.rs) *)
+  | OTakeUntil, B => ("ops/take_until.rs", "TakeUntilNotifierObserver")
+  | OSkipUntil, A => ("ops/skip_until.rs", "ShareObserver")
+  | OSkipUntil, B => ("ops/skip_until.rs", "SkipUntilNotifierObserver")
+  | OSample, A => ("ops/sample.rs", "SourceObserver")
+  | OSample, B => ("ops/sample.rs", "SampleObserver")
+  | OBuffer, A => ("ops/buffer.rs", "Option")               (* the cell that holds the whole BufferObserver *)
+  | OBuffer, B => ("ops/buffer.rs", "NotifierObserver")
   end.
 
 Definition wrap (ty : string) (cell : rv) : rv := VStruct ty [("0", cell); ("1", VUnit)].
@@ -34,7 +39,24 @@ Definition abs2 (o : op2) (sd : side) (s : st2) : option rv :=
       Some (wrap (snd (src2 o sd))
               (VStruct "CombineLatestObserver" [("observer", oslot (alive s)); ("a", VOptItem (la s)); ("b", VOptItem (lb s));
                                                 ("binary_op", VF2 f); ("completed_one", VBool (c1 s))]))
-  | _ => None
+  | OWithLatestFrom =>
+      Some (match sd with
+            | A => VStruct "AObserver" [("observer", oslot (alive s)); ("value", VOptItem (lb s))]
+            | B => VStruct "BObserver" [("observer", oslot (alive s)); ("value", VOptItem (lb s)); ("_marker", VUnit)]
+            end)
+  | OTakeUntil =>
+      Some (match sd with
+            | A => oslot (alive s)
+            | B => VStruct "TakeUntilNotifierObserver" [("main_observer", oslot (alive s)); ("_hint", VUnit)]
+            end)
+  | OSkipUntil =>
+      let share := VStruct "ShareObserver" [("observer", oslot (alive s)); ("skip", VBool (skipping s))] in
+      Some (match sd with A => share | B => wrap "SkipUntilNotifierObserver" share end)
+  | OSample =>
+      Some (VStruct (snd (src2 o sd)) [("observer", oslot (alive s)); ("value", VOptItem (la s))])
+  | OBuffer =>
+      let cell := if alive s then VSome (VStruct "BufferObserver" [("observer", VObs); ("data", VItems (qa s))]) else VOptItem None in
+      Some (match sd with A => cell | B => VStruct "NotifierObserver" [("0", cell); ("1", VUnit)] end)
   end.
 
 Definition src_call2 (P : prog) (o : op2) (sd : side) (m : string) (self : rv) (args : list rv) : option (rv * list ev) :=
@@ -58,5 +80,5 @@ Definition step2_agrees (P : prog) (o : op2) : Prop :=
     match abs2 o sd s, abs2 o sd (fst (step2 o s sd e)) with
     | Some self, Some self' =>
         src_call2 P o sd (fst (arg_of e)) self (snd (arg_of e)) = Some (self', snd (step2 o s sd e))
-    | _, _ => tied2 o = false
+    | _, _ => False
     end.
